@@ -197,15 +197,15 @@ def optM (sp : Spec) (val : Option Atom) (prog : Bool) : Expr → Expr × Nat
   | .phr n es =>
     if val.isNone && !(sp.valid.contains (.str [])) then (.phr n es, 1)
     else if n.kind = s "CP" && !(noPropagate.contains sp.name) then
-      -- the source records `optionName` (`own` for `ow`), the children get the option without source
-      let n1 := if prog then n else n.addHist (.opt sp.prop (.atom (val.getD .none)))
+      -- the source records the method name (since repair b0f13e0), the children get the option without source
+      let n1 := if prog then n else n.addHist (.opt sp.name (.atom (val.getD .none)))
       let r := optElems sp val es
       (.phr n1 r.1, r.2)
     else optLocal sp val prog (.phr n es)
   | .dep n t ds =>
     if val.isNone && !(sp.valid.contains (.str [])) then (.dep n t ds, 1)
     else if n.kind = s "coord" && !(noPropagate.contains sp.name) then
-      let n1 := if prog then n else n.addHist (.opt sp.prop (.atom (val.getD .none)))
+      let n1 := if prog then n else n.addHist (.opt sp.name (.atom (val.getD .none)))
       let r := optDeps sp val ds
       (.dep n1 t r.1, r.2)
     else optLocal sp val prog (.dep n t ds)
@@ -465,8 +465,9 @@ def mkTerm (env : Env) (lang : Lang) (kind : Str) (lemma0 : Atom) : Expr × Nat 
       match env.noWord lang x with
       | some (v, isOrd) =>
         let key := if isOrd then s "ord" else s "nat"
-        (.term { n with props := [(s "dOpt", .dict [(key, .bool true)])],
-                        hist := [.opt key (.atom (.bool true))] } (.int v) none, 0)
+        -- the ordinal is recorded as `.dOpt({'ord': True})` (there is no `.ord()` method; repair bf17f90)
+        let call := if isOrd then Call.opt (s "dOpt") (.dict [(key, .bool true)]) else Call.opt key (.atom (.bool true))
+        (.term { n with props := [(s "dOpt", .dict [(key, .bool true)])], hist := [call] } (.int v) none, 0)
       | none =>
         let n1 := { n with props := [(s "dOpt", PVal.dict dOptDefaultNO)] }
         if noShape x then (.term n1 lemma none, 0) else (.term n1 (.int 0) none, 1)
@@ -566,7 +567,7 @@ inductive RouteErr where
   | typeError | syntaxError | nameError | attributeError | notAConstituent | valueError
   deriving DecidableEq, Repr, Inhabited
 
-/-- `lang` of a constructor node = the current language when it is called (also the language of the object) -/
+/-- `lang` of a constructor node = the language of the object it builds (its `lang=` argument, else the current language) -/
 inductive Prog where
   | lit (x : Str)                                          -- a bare string (child of a phrase, head of a dependent)
   | term (kind : Str) (lemma : Atom) (lang : Lang)
